@@ -429,9 +429,10 @@ class ExecutionState:
             execution_state.create_checkpoint(is_sync=False)
         """
         # if this is CONTEXT complete, mark incomplete descendants as orphans so the children can't complete after the parent
-        if operation_update is not None:
-            # Use single lock to coordinate completion and checkpoint validation
-            with self._parent_done_lock:
+        # Use single lock to coordinate completion, checkpoint validation and the hand-over to the
+        # queue: an update validated before a context's completion must not be enqueued after it.
+        with self._parent_done_lock:
+            if operation_update is not None:
                 # Build parent-to-children map as operations are created
                 if operation_update.parent_id:
                     if operation_update.parent_id not in self._parent_to_children:
@@ -481,21 +482,21 @@ class ExecutionState:
                 ):
                     self._completed_contexts.add(operation_update.operation_id)
 
-        # Check if background checkpointing has failed
-        if self._checkpointing_failed.is_set():
-            # This will raise the stored BackgroundThreadError
-            self._checkpointing_failed.wait()
+            # Check if background checkpointing has failed
+            if self._checkpointing_failed.is_set():
+                # This will raise the stored BackgroundThreadError
+                self._checkpointing_failed.wait()
 
-        # Conditionally create completion event based on is_sync parameter
-        completion_event: CompletionEvent | None = (
-            CompletionEvent() if is_sync else None
-        )
+            # Conditionally create completion event based on is_sync parameter
+            completion_event: CompletionEvent | None = (
+                CompletionEvent() if is_sync else None
+            )
 
-        # Create wrapper object for queue
-        queued_op = QueuedOperation(operation_update, completion_event)
+            # Create wrapper object for queue
+            queued_op = QueuedOperation(operation_update, completion_event)
 
-        # Enqueue the wrapper object (operation_update can be None for empty checkpoints)
-        self._checkpoint_queue.put(queued_op)
+            # Enqueue the wrapper object (operation_update can be None for empty checkpoints)
+            self._checkpoint_queue.put(queued_op)
 
         # Re-check after enqueueing: if the background thread failed between the check above
         # and the put, it may already have drained the queue and nobody would wake this caller.
